@@ -449,6 +449,7 @@ type State struct {
 	alloc      string
 	epochAlloc string // allocation watermark at the start of the current heap epoch: bound for refs stored in lazily created base arrays
 	ghost      map[string]Val
+	keys       []KeyT               // map key terms seen on this path (instantiation candidates for quantifiers over map domains)
 	idx        []IdxT               // index terms seen on this path, with the sequence they index
 	visited    map[ssa.Value]string // range-over-map iterator -> visited set term
 	visitedKey string
@@ -464,7 +465,7 @@ func (st *State) clone() *State {
 	n := &State{
 		env: make(map[ssa.Value]Val, len(st.env)), heap: make(map[string]*HArr, len(st.heap)), lazy: make(map[string]*Lazy, len(st.lazy)),
 		epoch: st.epoch, hv: st.hv, epochAlloc: st.epochAlloc, pc: st.pc[:len(st.pc):len(st.pc)], held: make(map[string]string, len(st.held)), alloc: st.alloc,
-		ghost: make(map[string]Val, len(st.ghost)), idx: st.idx[:len(st.idx):len(st.idx)],
+		ghost: make(map[string]Val, len(st.ghost)), idx: st.idx[:len(st.idx):len(st.idx)], keys: st.keys[:len(st.keys):len(st.keys)],
 		visited: make(map[ssa.Value]string, len(st.visited)), depth: st.depth, visitedKey: st.visitedKey,
 		dbg: make(map[string]Val, len(st.dbg)), dbgAddr: make(map[string]Val, len(st.dbgAddr)), applied: make(map[string]bool, len(st.applied)),
 	}
@@ -515,6 +516,21 @@ func (st *State) assume(f string) {
 		return
 	}
 	st.pc = append(st.pc, PCItem{F: f})
+}
+
+// KeyT is a map key term with its sort
+type KeyT struct{ T, Sort string }
+
+func (st *State) addKey(t, srt string) {
+	if t == "" || len(t) > 1500 || strings.Contains(t, "?") {
+		return
+	}
+	for _, k := range st.keys {
+		if k.T == t {
+			return
+		}
+	}
+	st.keys = append(st.keys, KeyT{t, srt})
 }
 
 // IdxT is an index term together with the backing array (sequence) it was used to index ("" = unknown)
